@@ -1020,7 +1020,8 @@ def gen_spec(env, rng, serial):
     modules = {}
     for component in rng.sample(['source', 'pipeline', 'evaluation'], rng.choice([0, 0, 1, 2, 3])):
         leaf = rng.choice(['src', 'pipe', 'ev', 'é', '模块', 'mod_1', component + '_impl'])
-        modules[component] = rng.choice([leaf, f'{package}.{leaf}', f'{package}.inner.{leaf}', f'nested.{leaf}'])
+        # (the last one: a module *inside* the package whose relative name starts with the text of the package name)
+        modules[component] = rng.choice([leaf, f'{package}.{leaf}', f'{package}.inner.{leaf}', f'nested.{leaf}', f'{package}_{leaf}'])
     resolved = [env.pg.module_name({'package': package, 'modules': modules}, c) for c in env.pg.COMPONENTS]
     if len(set(resolved)) < len(resolved):  # two components in one module: not a legal project
         modules = {}
